@@ -473,9 +473,9 @@ def check_main_wrapper(chk, prover):
 def run(chk, tier, seed):
     common.build_capy()
     rnd = random.Random(seed)
-    nprog = 40 if tier == 'quick' else 400
+    nprog = 40 if tier == 'quick' else 160
     progs = [gen_program(rnd, i, tier) for i in range(nprog)]
-    progs += [gen_agg_program(rnd, nprog + i) for i in range(12 if tier == 'quick' else 120)]
+    progs += [gen_agg_program(rnd, nprog + i) for i in range(12 if tier == 'quick' else 60)]
     prover = Prover(chk, timeout_ms=60000)
     stats = {'clif_paths': 0, 'ref_paths': 0, 'path_pairs': 0, 'skipped_too_many_paths': 0, 'outside_reference_semantics': 0, 'rejected': 0}
     # compile in groups; a rejected group is bisected to the offending program
